@@ -44,6 +44,11 @@ fn check_q(q: &Query, doc: &J, obs: &mut Obs, nontrivial: bool) -> Res {
 fn check_q_text(q: &Query, text: String, doc: &J, obs: &mut Obs, nontrivial: bool) -> Res {
     let v = doc.to_value();
     let map = node_map(&v);
+    check_q_on(q, text, doc, &v, &map, obs, nontrivial)
+}
+
+/// the same on a document whose `Value` and node map were built once (long arrays)
+fn check_q_on(q: &Query, text: String, doc: &J, v: &Value, map: &std::collections::HashMap<usize, Loc>, obs: &mut Obs, nontrivial: bool) -> Res {
     let exp: Vec<Loc> = oracle::eval(q, doc, &Quirks::strict()).iter().map(|n| n.loc()).collect();
     if nontrivial {
         obs.nontrivial(&(text.as_str(), doc.text()), || {
@@ -51,8 +56,8 @@ fn check_q_text(q: &Query, text: String, doc: &J, obs: &mut Obs, nontrivial: boo
         });
     }
     for (what, r) in [
-        ("query_with_path", libx::query_with_path(&v, &map, &text)),
-        ("js_path_process(programmatic AST)", libx::process(&v, &map, &libx::to_lib(q))),
+        ("query_with_path", libx::query_with_path(v, map, &text)),
+        ("js_path_process(programmatic AST)", libx::process(v, map, &libx::to_lib(q))),
     ] {
         obs.eval(1);
         let case = || json!({"query": text, "doc": doc.to_value()});
@@ -171,6 +176,60 @@ fn box_boundary(obs: &mut Obs, _thorough: bool) -> Res {
         }
     }
     obs.boxes.push(json!({"box": "boundary values in every position", "values": "0, +-1, +-len, +-(len+-1), +-(2^53-1), +-(2^53-2), +-2^31, 2^31-1, +-(2^32+1), 2^52, absent", "lengths": [0, 1, 2, 3, 5], "queries": n, "exhaustive": true}));
+    Ok(())
+}
+
+/// long arrays (beyond 2^5, 2^8, 2^10, 2^12, 2^16 elements) under extreme and ordinary bounds and steps:
+/// the products and sums an implementation forms from a clamped bound, the length and the step grow with
+/// the length of the array
+fn box_long(obs: &mut Obs, thorough: bool) -> Res {
+    let mut n = 0u64;
+    let lens: Vec<usize> = if thorough { vec![33, 257, 1025, 4097, 65537, 300_000] } else { vec![33, 257, 1025, 4097, 65537] };
+    for len in lens {
+        let doc = arr(len);
+        let v = doc.to_value();
+        let map = node_map(&v);
+        let l = len as i64;
+        let big = len > 5000;
+        let mut bounds: Vec<Option<i64>> = vec![None, Some(0), Some(10), Some(-10), Some(l), Some(-l), Some(l - 1), Some(MAX_SAFE), Some(-MAX_SAFE)];
+        if !big {
+            bounds.extend([Some(l / 2), Some(-l - 1), Some(1 << 31)]);
+        }
+        let mut steps: Vec<Option<i64>> = vec![
+            Some(MAX_SAFE), Some(-MAX_SAFE), Some(1 << 52), Some(-(1 << 52)), Some(1 << 51), Some(-(1 << 50)), Some((1 << 32) + 1), Some(-(1i64 << 32) - 1), Some(1 << 31), Some(-(1 << 31)),
+            Some(l), Some(-l), Some(l - 1), Some(l + 1), Some(1000), Some(-1000), Some(0),
+        ];
+        if !big {
+            steps.extend([None, Some(-1), Some(2), Some(-3)]);
+        } else {
+            steps.extend([Some(997), Some(-4096)]);
+        }
+        for s in &bounds {
+            for e in &bounds {
+                for step in &steps {
+                    let q = one_seg(Sel::Slice(*s, *e, *step, false));
+                    check_q_on(&q, render_plain(&q), &doc, &v, &map, obs, false)?;
+                    n += 1;
+                }
+            }
+        }
+        obs.nontrivial(&("long", len), || json!({"array length": len, "bounds": bounds, "steps": steps}));
+        // a few full walks of the long array
+        for step in [None, Some(-1), Some(2)] {
+            let q = one_seg(Sel::Slice(None, None, step, false));
+            check_q_on(&q, render_plain(&q), &doc, &v, &map, obs, false)?;
+            n += 1;
+        }
+        // the same slice below a name and inside a filter
+        let holder = J::Obj(vec![("l".to_string(), doc.clone())]);
+        for text in ["$.l[::9007199254740991]", "$.l[10::-9007199254740991]", "$[?@[::4503599627370496]]", "$..[::-9007199254740991]"] {
+            if let Some(q) = crate::recog::parse_ast(text) {
+                check_q_text(&q, text.to_string(), &holder, obs, false)?;
+                n += 1;
+            }
+        }
+    }
+    obs.boxes.push(json!({"box": "long arrays under extreme bounds and steps", "lengths": "33, 257, 1025, 4097, 65537 (thorough: and 300000)", "queries": n, "exhaustive": true}));
     Ok(())
 }
 
@@ -320,6 +379,7 @@ pub fn prop() -> Prop {
         subs: vec![
             Sub { name: "box-small", kind: Kind::Exhaustive(box_small) },
             Sub { name: "box-boundary", kind: Kind::Exhaustive(box_boundary) },
+            Sub { name: "box-long", kind: Kind::Exhaustive(box_long) },
             Sub { name: "box-embedded-index", kind: Kind::Exhaustive(box_embedded_index) },
             Sub { name: "box-non-arrays", kind: Kind::Exhaustive(box_non_arrays) },
             Sub { name: "random-nested", kind: Kind::Random { f: random_nested, quick: 200_000, thorough: 4_000_000, len: 400 } },
